@@ -88,9 +88,27 @@ def initial_state(ex, table, specs, contract, fi, cls):
     return st, self_v, args
 
 
+def function_under(table, specs, contract, cls):
+    """The function body verified against `contract` for a receiver of class `cls`: the function the contract names, or -
+    behavioural subtyping - the override that `cls` resolves the method to when that override has no contract of its own
+    (a subclass that redefines a contracted method must still satisfy the inherited contract)."""
+    fi = table.get_function(contract.qual)
+    if fi is None or fi.kind != 'method' or cls not in table.classes:
+        return fi
+    owner = contract.qual.split('.')[0]
+    if cls == owner or not table.is_subclass(cls, owner):
+        return fi
+    ov = table.find(cls, fi.name)
+    if ov is not None and ov.qualname != fi.qualname and specs.contract_for(ov, cls) is None:
+        specs.header_mismatches.add(f'{ov.qualname} overrides {fi.qualname} without a contract of its own: verified against '
+                                    f'the inherited contract (behavioural subtyping)')
+        return ov
+    return fi
+
+
 def gen_obligations(table, specs, contract, cls, deadline=None):
     """-> (Executor with .obligs, meta)"""
-    fi = table.get_function(contract.qual)
+    fi = function_under(table, specs, contract, cls)
     if fi is None:
         raise Unsupported(f'function {contract.qual} not found in the source tree (renamed or removed?)')
     ex = Executor(table, specs, task_cls=cls, prefix='')
